@@ -1,4 +1,8 @@
 -- Root of the `Signac` library: models, proofs, property theorems.
+-- `lake build` (MANIFEST setup_cmd) builds everything listed here.
 import Signac.Json
 import Signac.Md5
 import Signac.Wire
+import Signac.PyVal
+import Signac.Extracted
+import Signac.Properties.C01
